@@ -10,10 +10,25 @@ GAPS = {
 }
 
 
+E = lambda *names: ["CacheVerif.Expect." + n for n in names]
+EXPECT = {
+    "C01": E("Cache"), "C02": E("Cache"), "C06": E("Cache"), "C09": E("Cache", "Ctor"), "C12": E("Cache", "Ctor"),
+    "C03": E("Load", "DoCompute", "Resize", "Lock"), "C04": E("Load", "DoCompute", "Resize"),
+    "C05": E("DoCompute", "Cache"), "C07": E("Range"), "C08": E("DoCompute", "Resize"),
+    "C10": E("Load", "DoCompute"), "C11": E("DoCompute", "Resize", "Alloc"),
+    "C13": E("DoCompute", "Resize", "Range", "Lock"), "C14": E("Load", "DoCompute", "Resize", "Range", "Lock", "Cache", "Ctor"),
+    "C15": E("Ctor"), "C16": E("Load"),
+}
+
+
 def common(run, modules):
     """steps 1-3: tools, regeneration, proofs, audit.  Returns True when the driver is usable."""
     R.build_tools(run)
     R.regenerate(run)
+    # pinned structural facts (skeletons extracted by gofacts = the ones the hand-written models were written from)
+    for em in EXPECT.get(run.pid, []):
+        eok, elog = R.lake_build(run, [em])
+        run.oblige("lake build %s (extracted skeleton / call structure / capture facts equal the pinned ones)" % em, eok, elog)
     ok, log = R.lake_build(run, modules)
     run.oblige("lake build %s (all proof obligations of the property's modules)" % " ".join(modules), ok, log)
     if ok:
@@ -304,17 +319,25 @@ PROPS = {
 
 
 def setup():
+    """MANIFEST.setup_cmd: build everything from files on disk (offline)."""
     run = R.Run("setup", "quick", 1)
     R.build_tools(run)
-    R.regenerate(run)
+    if not R.regenerate(run):
+        print([o for o in run.obligations if not o[1]])
+        return 1
     ok, log = R.lake_build(run, ["CacheVerif", "driver"])
     if not ok:
         print(log)
         return 1
-    for mode in ("clock",):
+    for mode in ("clock", "layout", "sched"):
         h, err = R.build_harness(run, mode)
         if h is None:
             print(err)
+            return 1
+    for name, fn in (("keys", R.build_keys_harness), ("race", R.build_race_harness)):
+        h, err = fn(run)
+        if h is None:
+            print(name, err)
             return 1
     R.sh(["rm", "-rf", run.work])
     print("setup ok")
